@@ -61,7 +61,9 @@ package car
 //@   requires origin [C14]: pos(r) == 0 && sbase(r) == 0
 //@   assume canonical_pragma: true
 //@   let hdr, herr := call[carv1.ReadHeader#0]
-//@   call[Seeker.Seek#0] assume pragma_is_11_bytes: enclen(hdr) == 10
+//@   call[Seeker.Seek#0] assume pragma_is_11_bytes: rawlen(hdr) == 10
+//@   call[carv1.HeaderSize#0] assume canonical_header: rawlen(arg0) == enclen(arg0)
+//@   call[carv1.HeaderSize#1] assume canonical_header: rawlen(arg0) == enclen(arg0)
 //@   ensures inv [C14]: err == nil && pos(result0.r) <= 4611686018427387904 ==> result0.offset == pos(result0.r)
 //@   ensures v1 [C14]: err == nil && result0.Version == 1 ==> result0.v1offset == 0 && result0.r == r
 //@   ensures v2_limit [C14]: err == nil && result0.Version == 2 ==> typeis(result0.r, "*io.LimitedReader") && cell(result0.r) == cell(r)
@@ -107,3 +109,27 @@ package car
 //@   let sectionLen, verr := call[varint.ReadUvarint#0]
 //@   call[Index.Load#0] assert scan_complete [C03]: verr == io.EOF || (verr == nil && sectionLen == 0 && o.ZeroLengthSectionAsEOF) || (dataSize != 0 && wrap_s64(pos(reader) - sbase(reader)) - dataOffset >= dataSize)
 //@   call[Index.Load#0] assert args [C03]: ref(arg0) == ref(idx) && ref(arg1) == ref(records)
+
+//@ func ReplaceRootsInFile
+//@   let h0, e0 := call[carv1.ReadHeader#0]
+//@   let h1, e1 := call[carv1.ReadHeader#1]
+//@   let f0, fe0 := call[os.OpenFile#0]
+//@   call[os.OpenFile#0] assume at_origin: err == nil ==> pos(result0) == 0 && sbase(result0) == 0
+//@   effects require only_when_same_size [C10]: currentSize == newSize && err == nil
+//@   call[File.Write#0] assert at_header_offset [C10]: pos(f) == sbase(f) + newHeaderOffset && len(arg1) == newSize
+//@   call[File.Write#0] assert measured_size_v1 [C10]: h0.Version == 1 ==> currentSize == vsize(rawlen(h0)) + rawlen(h0) && newHeaderOffset == 0
+//@   call[File.Write#0] assert measured_size_v2 [C10]: h0.Version == 2 ==> currentSize == vsize(rawlen(h1)) + rawlen(h1)
+//@   call[carv1.WriteHeader#0] assert new_header [C10]: arg0.Version == 1 && arg0.Roots == roots
+
+//@ func ExtractV1File
+//@   call[os.OpenFile#0] assert keeps_existing_bytes [C10]: arg1 == 65
+//@   call[io.CopyN#0] assert payload_window [C10]: pos(arg1) == sbase(arg1) + v2h.DataOffset && arg2 == v2h.DataSize && ref(arg1) == ref(src) && ref(arg0) == ref(dst)
+//@   call[File.Truncate#0] assert to_payload_size [C10]: arg1 == v2h.DataSize && ref(arg0) == ref(dst)
+//@   check copied_all [C10]: err == nil ==> written == v2h.DataSize
+
+//@ func WrapV1
+//@   requires origin [C03]: pos(src) == 0 && sbase(src) == 0
+//@   call[Writer.Write#0] assert pragma_first [C10]: wn(dst) == old(wn(dst)) && len(arg1) == 11
+//@   call[Header.WriteTo#0] assert header [C10]: arg0.DataOffset == 51 && arg0.DataSize == v1Size && arg0.IndexOffset == wrap_u64(51 + v1Size) && v1Size == send(src)
+//@   call[io.Copy#0] assert verbatim_from_start [C10]: pos(src) == sbase(src) && ref(arg1) == ref(src) && ref(arg0) == ref(dst)
+//@   call[index.WriteTo#0] assert index_after_payload [C10]: ref(arg0) == ref(idx) && ref(arg1) == ref(dst)
